@@ -66,6 +66,9 @@ def pinned(p):
         return True
     if len(a) == 2 and a[1]['op'] == 'EXTCODEHASH' and a[1]['k'] in ('0', '1') and a[0]['op'] in ('CALL', 'STATICCALL') and a[0]['t'] == a[1]['t']:
         return True
+    if a and b and any(o['op'] == 'HOP' for o in a) and any(o['op'] == 'HOP' for o in b) and \
+            any(o['op'] in ('CALLCODE', 'DELEGATECALL', 'CALL', 'STATICCALL') and o['t'] == 'B' for o in a):
+        return True      # caller and callee both jump
     return False
 
 
@@ -168,6 +171,7 @@ MEMFILL = push(0x1122334455667788990011223344556677889900aabbccddeeff00112233445
 CALLDATA = bytes(range(1, 41))
 RETURNER, REVERTER, FAILER = (0xd100000000000000000000000000000000000d01, 0xd200000000000000000000000000000000000d02,
                               0xd300000000000000000000000000000000000d03)
+LIB = 0xd500000000000000000000000000000000000d05
 SUICIDER = 0xd400000000000000000000000000000000000d04
 EMPTYACCT = 0xe000000000000000000000000000000000000e0e
 FRESH = 0xf4e5000000000000000000000000000000000f01
@@ -181,8 +185,8 @@ def gen_snippets(rng, per_op, mode='ANN'):
     """-> list of (label, code bytes, calldata bytes)"""
     out = []
 
-    def add(label, code, data=CALLDATA):
-        out.append((label, code, data))
+    def add(label, code, data=CALLDATA, lib=None):
+        out.append((label, code, data) if lib is None else (label, code, data, lib))
 
     for b in range(256):
         if b not in OPS:
@@ -359,6 +363,47 @@ def gen_snippets(rng, per_op, mode='ANN'):
         for oname in ('EXTCODEHASH', 'EXTCODESIZE', 'BALANCE'):
             add('%s:acct:%s' % (oname, cname), with_operands(BYNAME[oname], [a], 1, pre=pre))
         add('EXTCODECOPY:acct:%s' % cname, with_operands(BYNAME['EXTCODECOPY'], [a, 0, 0, 32], 0, tail=push(64) + push(0) + op('RETURN'), pre=MEMFILL + pre))
+    # jumps in caller AND callee of every call kind, layouts disagreeing at the target offset (the jump-destination analysis
+    # is cached per code hash: the callee's code must be analysed as the callee's code)
+    def pad(c, n, fill=0xfe):
+        assert len(c) <= n, (len(c), n)
+        return c + bytes([fill]) * (n - len(c))
+    landed = push(0x77) + push(0) + op('MSTORE') + push(32) + push(0) + op('RETURN')      # callee: "I landed": returns 0x77
+    for cname in ('CALL', 'CALLCODE', 'DELEGATECALL', 'STATICCALL'):
+        hasv = cname in ('CALL', 'CALLCODE')
+        docall = b''.join(push(x) for x in [32, 64, 0, 0] + ([0] if hasv else []) + [LIB]) + op('GAS') + op(cname)
+        fin = push(0) + op('MSTORE') + op('RETURNDATASIZE') + push(32) + op('MSTORE') + push(96) + push(0) + op('RETURN')   # status, rdsize, window
+        for order in ('caller-jumps-first', 'callee-jumps-first'):
+            def caller(head):
+                # head fixes what the caller has at the low offsets; then its own jump (before or after the call)
+                hop_at = len(head)
+                hop = bytes([0x61, (hop_at + 4) >> 8, (hop_at + 4) & 255]) + op('JUMP') + op('JUMPDEST')
+                return head + (hop + docall if order == 'caller-jumps-first' else docall + bytes([0x61, (hop_at + len(docall) + 4) >> 8, (hop_at + len(docall) + 4) & 255]) + op('JUMP') + op('JUMPDEST')) + fin
+            # V1: the callee's JUMPDEST (offset 10) lies where the caller has a PUSH32 immediate
+            lib1 = pad(push(10) + op('JUMP'), 10) + op('JUMPDEST') + landed
+            add('%s:jump:callee-target-is-caller-immediate:%s' % (cname, order), caller(bytes([0x7f]) + bytes([0x5b]) * 32 + op('POP')), lib=lib1)
+            # V2: the callee jumps into its own PUSH32 immediate (0x5b bytes) where the caller has real JUMPDESTs: must fail
+            lib2 = push(8) + op('JUMP') + bytes([0x7f]) + bytes([0x5b]) * 32 + landed
+            add('%s:jump:callee-immediate-is-caller-jumpdest:%s' % (cname, order), caller(op('JUMPDEST') * 40), lib=lib2)
+            # V3: the callee's target lies beyond the end of the caller's code
+            lib3 = pad(bytes([0x61, 0x02, 0x58]) + op('JUMP'), 600) + op('JUMPDEST') + landed
+            add('%s:jump:callee-target-beyond-caller-code:%s' % (cname, order), caller(b''), lib=lib3)
+            # V4: the caller's own target lies where the callee has an immediate (the reverse mix-up)
+            lib4 = bytes([0x7f]) + bytes([0x5b]) * 32 + op('POP') + bytes([0x61, 0, 38]) + op('JUMP') + op('JUMPDEST') + landed
+            add('%s:jump:caller-target-is-callee-immediate:%s' % (cname, order), caller(op('JUMPDEST') * 5), lib=lib4)
+    # return data of precompiles must not alias the caller's memory: call, overwrite the input region, read the return data
+    for cname in ('CALL', 'CALLCODE', 'DELEGATECALL', 'STATICCALL'):
+        hasv = cname in ('CALL', 'CALLCODE')
+        for pname, paddr in (('identity', 4), ('sha256', 2), ('ripemd160', 3), ('ecrecover', 1)):
+            for wname, (ooff, osz) in (('no-window', (0, 0)), ('window-shifted-over-input', (16, 32)), ('window-on-input', (0, 64)),
+                                       ('window-behind-input', (64, 32))):
+                c = MEMFILL + push(0) + push(480) + op('MSTORE')                      # memory fully allocated before the call
+                c += b''.join(push(x) for x in [osz, ooff, 64, 0] + ([0] if hasv else []) + [paddr]) + op('GAS') + op(cname) + push(256) + op('MSTORE')
+                c += push(MARKER) + push(0) + op('MSTORE') + push(MARKER ^ M256) + push(40) + op('MSTORE')     # overwrite the input region
+                c += op('RETURNDATASIZE') + push(288) + op('MSTORE')
+                c += op('RETURNDATASIZE') + push(0) + push(320) + op('RETURNDATACOPY')    # whole return data -> memory[320:]
+                c += push(448) + push(0) + op('RETURN')
+                add('%s:retdata-after-input-overwrite:%s:%s' % (cname, pname, wname), c)
     # stack limits
     add('STACK:1024', push(1) * 1024 + ret_top(1))
     add('STACK:1025', push(1) * 1025 + ret_top(1))
@@ -383,7 +428,8 @@ def snippet_traces(rng, per_op, mode, chunk=400, via=None, every=1):
         part = sn[i:i + chunk]
         traces.append({'id': 'snippets-%s%s-%d' % (mode, '-' + via if via else '', i // chunk),
                        'cfg': dict({'kind': 'snippets', 'mode': mode}, **({'via': via} if via else {})), 'init': None,
-                       'steps': [{'a': 'Snippet', 'args': [c.hex(), d.hex(), l], 'post': {}} for (l, c, d) in part]})
+                       'steps': [{'a': 'Snippet', 'args': [x[1].hex(), x[2].hex(), x[0]] + ([x[3].hex()] if len(x) > 3 else []), 'post': {}}
+                                 for x in part]})
     return traces, len(sn)
 
 
@@ -403,6 +449,9 @@ CONFIGS = {
     'insp_ref':  ('MC_EVMFrames_insp_ref.cfg', 'REF', 'direct', 3),
     'insp_ann':  ('MC_EVMFrames_insp_ann.cfg', 'ANN', 'direct', 3),
     'insp_app':  ('MC_EVMFrames_insp_app.cfg', 'APP', 'direct', 3),
+    'jump_ref':  ('MC_EVMFrames_jump_ref.cfg', 'REF', 'direct', 3),
+    'jump_ann':  ('MC_EVMFrames_jump_ann.cfg', 'ANN', 'direct', 3),
+    'jump_app':  ('MC_EVMFrames_jump_app.cfg', 'APP', 'direct', 3),
     'deep_ann':  ('MC_EVMFrames_deep_ann.cfg', 'ANN', 'tramp', 2),
     'deep_ref':  ('MC_EVMFrames_deep_ref.cfg', 'REF', 'tramp', 2),
     'sim_ref_d': ('MC_EVMFrames_sim_ref_d.cfg', 'REF', 'direct', 4),
@@ -571,8 +620,8 @@ def run(ctx, replay=None):
     quick = ctx.tier == 'quick'
     W = 2 if quick else 4
     TO = 600 if quick else 3000
-    exh = ['core_ann', 'core_app', 'crea_ref', 'crea_app', 'deep_ann', 'win_ann', 'insp_ann'] if quick else \
-        ['core_ref', 'core_ann', 'core_app', 'crea_ref', 'crea_ann', 'crea_app', 'deep_ann', 'deep_ref', 'win_ref', 'win_ann', 'win_app', 'insp_ref', 'insp_ann', 'insp_app']
+    exh = ['core_ann', 'core_app', 'crea_ref', 'crea_app', 'deep_ann', 'win_ann', 'insp_ann', 'jump_ann'] if quick else \
+        ['core_ref', 'core_ann', 'core_app', 'crea_ref', 'crea_ann', 'crea_app', 'deep_ann', 'deep_ref', 'win_ref', 'win_ann', 'win_app', 'insp_ref', 'insp_ann', 'insp_app', 'jump_ref', 'jump_ann', 'jump_app']
     sims = [(n, (150, 250) if quick else (350, 300)) for n in (('sim_ref_d', 'sim_ann_d', 'sim_app_t', 'sim_ann_t') if quick else
                                                               ('sim_ref_d', 'sim_ann_d', 'sim_app_d', 'sim_ref_t', 'sim_ann_t', 'sim_app_t'))]
     results = {}
@@ -602,7 +651,7 @@ def run(ctx, replay=None):
         # a seeded sample of the larger exhaustive sets (programs entered through the 1022-frame trampoline cost ~30 ms
         # each on each binary); the thorough tier runs the direct-entry sets completely; every simulated program is run
         # (pinned programs - window + reverting callee, inspect-after-touch - are always kept, see pinned())
-        caps = {'core_ann': 600, 'core_app': 600, 'crea_ref': 500, 'crea_app': 700, 'deep_ann': 400, 'win_ref': 600, 'win_ann': 2500, 'insp_ann': 1500} if quick else \
+        caps = {'core_ann': 600, 'core_app': 600, 'crea_ref': 500, 'crea_app': 700, 'deep_ann': 400, 'win_ref': 600, 'win_ann': 2000, 'insp_ann': 1200, 'jump_ann': 1200} if quick else \
             {'deep_ann': 1200, 'deep_ref': 1200}
         by = {}
         for t in traces:
